@@ -191,7 +191,9 @@ def voxel_from_binvox(rle_data, shape, translate=None, scale=1.0, axis_order="xz
     # translate = np.asanyarray(translate) * scale)
     # translate = [0, 0, 0]
     transform = transformations.scale_and_translate(
-        scale=scale / (np.array(shape) - 1), translate=translate
+        # an axis of length one has no extent: it is written with its pitch
+        scale=scale / np.maximum(np.array(shape) - 1, 1),
+        translate=translate,
     )
 
     if axis_order == "xzy":
@@ -260,12 +262,13 @@ def export_binvox(voxel, axis_order="xzy"):
       Representation according to binvox spec
     """
     translate = voxel.translation
-    scale = voxel.scale * (np.array(voxel.shape) - 1)
-    (neg_scale,) = np.where(scale < 0)
+    extent = voxel.scale * (np.array(voxel.shape) - 1)
+    (neg_scale,) = np.where(extent < 0)
     encoding = voxel.encoding.flip(neg_scale)
     # index 0 of a flipped axis is the far end of the original grid
-    translate = translate + np.minimum(scale, 0)
-    scale = np.abs(scale)
+    translate = translate + np.minimum(extent, 0)
+    # an axis of length one has no extent: it is written with its pitch
+    scale = np.abs(voxel.scale * np.maximum(np.array(voxel.shape) - 1, 1))
     if not util.allclose(scale[0], scale[1:], 1e-6 * scale[0] + 1e-8):
         raise ValueError("Can only export binvox with uniform scale")
     scale = scale[0]
